@@ -1,6 +1,7 @@
 import Afkak.Wire.Crc
 import Afkak.Wire.Version
 import Afkak.Monitor.C04
+import Afkak.Monitor.C04Total
 import Afkak.Monitor.C05
 import Afkak.Codec.Value
 import Driver.Util
@@ -13,6 +14,8 @@ A request that does not parse is answered `bad-op` (never a default value).
 
 * `enc <api> …` / `dec <api> …` run the MODEL of afkak's encoders / decoders.
 * `spec-enc <kind> <value>` encodes a value with the INDEPENDENT grammar (`Afkak/Wire/Spec.lean`).
+* `must-c04 <api> <caller's arguments>` answers `fail must-encode` when the arguments are ones the encoder
+  must accept (`Afkak.Monitor.C04.must…`), `out-of-range` otherwise; sent when the REAL encoder refused them.
 * `mon-c04 <api> <caller's arguments> <frame>` evaluates `Afkak.Monitor.C04` on a frame the REAL
   encoder produced; `mon-c05 <kind> <value> | <observed answer line>` evaluates `Afkak.Monitor.C05`
   on what the REAL decoder returned for `spec-enc <kind> <value>`.
@@ -217,6 +220,24 @@ def Req.monitor (s : St) (frame : Bytes) : Req → Option Monitor.C04.Verdict
   | .syncGroup cid corr g gen mid asg => some (Monitor.C04.syncGroup cid corr g gen mid asg frame)
   | .syncGroupMemberAssignment ver asg ud => some (Monitor.C04.assignment ver asg ud frame)
   | .apiVersions cid corr key ver => some (Monitor.C04.apiVersions cid corr key ver frame)
+
+/-- must the encoder accept these arguments? (`Afkak.Monitor.C04.must…`, the hypotheses of `C04_*_total`) -/
+def Req.must (s : St) : Req → Option Bool
+  | .header .. => none
+  | .produce cid corr ps acks timeout ver => some (Monitor.C04.mustProduce Crc.crc32 s.now cid corr ps acks timeout ver)
+  | .fetch cid corr ps wait minb ver => some (Monitor.C04.mustFetch cid corr ps wait minb ver)
+  | .offset cid corr ps => some (Monitor.C04.mustListOffsets cid corr ps)
+  | .metadata cid corr ts => some (Monitor.C04.mustMetadata cid corr ts)
+  | .consumerMetadata cid corr g => some (Monitor.C04.mustFindCoordinator cid corr g)
+  | .offsetCommit cid corr g gen consumer ps => some (Monitor.C04.mustOffsetCommit cid corr g gen consumer ps)
+  | .offsetFetch cid corr g ps => some (Monitor.C04.mustOffsetFetch cid corr g ps)
+  | .joinGroup cid corr p => some (Monitor.C04.mustJoinGroup cid corr p)
+  | .joinGroupProtocolMetadata ver subs ud => some (Monitor.C04.mustSubscription ver subs ud)
+  | .leaveGroup cid corr g mid => some (Monitor.C04.mustLeaveGroup cid corr g mid)
+  | .heartbeat cid corr g gen mid => some (Monitor.C04.mustHeartbeat cid corr g gen mid)
+  | .syncGroup cid corr g gen mid asg => some (Monitor.C04.mustSyncGroup cid corr g gen mid asg)
+  | .syncGroupMemberAssignment ver asg ud => some (Monitor.C04.mustAssignment ver asg ud)
+  | .apiVersions cid corr key ver => some (Monitor.C04.mustApiVersions cid corr key ver)
 
 /-! ## rendering of decoded responses (shared by `dec` and `mon-c05`) -/
 
@@ -605,6 +626,12 @@ def step (s : St) (line : String) : St × List String :=
        match args.getLast?, parseReq api args.dropLast with
        | some (.bytes frame), some r => (s, optRes (fun (v : Monitor.C04.Verdict) => [v.name]) (r.monitor s frame))
        | _, _ => (s, ["bad-op"]))
+  | "must-c04" :: api :: toks =>
+    -- the caller's arguments as for `enc`, sent when the REAL encoder refused them
+    (match V.parseMany (toks.length + 1) toks with
+     | none => (s, ["bad-op"])
+     | some args => (s, optRes (fun (b : Bool) => if b then ["fail", "must-encode"] else ["out-of-range"])
+         ((parseReq api args).bind (fun r => r.must s))))
   | "spec-enc" :: kind :: toks =>
     (match V.parseAll toks with
      | none => (s, ["bad-op"])
